@@ -218,6 +218,10 @@ func (g *gen) update(t *rapid.T, e *env, kind string) *desc {
 			d.boxRID, d.name = b.rid, b.name
 		case v == 6 && len(cand) > 0:
 			d.boxRID, d.name = pickBox(t, cand).rid, pickBox(t, m.boxes).name
+		case v == 7 && len(cand) > 0:
+			// the current name in another letter case: a rename like any other (only INBOX is case-insensitive)
+			b := pickBox(t, cand)
+			d.boxRID, d.name = b.rid, swapLetterCase(b.name)
 		case v == 8 && len(gone) > 0:
 			d.boxRID, d.name = pickBox(t, gone).rid, g.name(t, m)
 		case v == 9:
@@ -538,4 +542,18 @@ func (g *gen) command(t *rapid.T, e *env) *cmd {
 	}
 
 	return c
+}
+
+// swapLetterCase swaps the case of every ASCII letter of the last name component.
+func swapLetterCase(name string) string {
+	start := strings.LastIndexByte(name, '/') + 1
+	b := []byte(name)
+
+	for i := start; i < len(b); i++ {
+		if c := b[i]; c >= 'a' && c <= 'z' || c >= 'A' && c <= 'Z' {
+			b[i] ^= 0x20
+		}
+	}
+
+	return string(b)
 }
